@@ -127,11 +127,27 @@ func (e *Encoder) Encode(geom orb.Geometry, srid int) error {
 		if g == nil {
 			return nil
 		}
-	// deal with types that are not supported by wkb
 	case orb.Ring:
 		if g == nil {
 			return nil
 		}
+	}
+
+	return e.encode(geom, srid)
+}
+
+// encode writes the geometry. It is what Encode does for a non-nil value and
+// what the multi geometries and collections use for their members: a member
+// has been counted by its parent, so a nil slice member must still be written,
+// as the empty version of its type.
+func (e *Encoder) encode(geom orb.Geometry, srid int) error {
+	if geom == nil {
+		return nil
+	}
+
+	// deal with types that are not supported by wkb
+	switch g := geom.(type) {
+	case orb.Ring:
 		geom = orb.Polygon{g}
 	case orb.Bound:
 		geom = g.ToPolygon()
